@@ -28,7 +28,8 @@ CHECKS = {
     "C10": [("R-TABLES.logic", "r_tables", "run_logic", ("quick", "thorough"))],
     "C18": [("R-PRINTF", "r_printf", "run", ("quick", "thorough"))],
     "C19": [("R-RANDCOV", "r_rand", "run", ("quick", "thorough"))],
-    "C20": [("R-CXXALIAS", "r_cxx", "run", ("quick", "thorough"))],
+    "C20": [("R-CXXALIAS", "r_cxx", "run", ("quick", "thorough")),
+            ("R-CXXMAP", "r_cxxmap", "run", ("quick", "thorough"))],
     "C01": [("R-CONTRACT", "r_contract", "run", ("quick", "thorough")),
             ("R-CONSTASSERT", "r_assert", "run_constassert", ("quick", "thorough")),
             ("R-SAMESRC", "r_samesrc", "run", ("quick", "thorough"))],
@@ -85,6 +86,7 @@ RULES = {
     "R-ABI.state": ("r_abi", "run_state"),
     "R-BUFGROW": ("r_alloc", "run_bufgrow"),
     "R-MPFZERO": ("r_mpfzero", "run"),
+    "R-CXXMAP": ("r_cxxmap", "run"),
     "R-EXTENT.c13": ("r_alias", "run_c13"),
     "R-ABI.c03": ("r_abi", "run_c03"),
     "R-ALIAS.c03": ("r_alias", "run_c03"),
@@ -186,6 +188,9 @@ EXPLANATION = {
 }
 
 ASSUMPTIONS = {
+    "R-CXXMAP": ["the conflict table (py/r_cxxmap.py SEM) is read off the manual's C++ interface chapter: / and % truncate, >> floors, the named "
+                 "functions; helper calls and functions of the functor's own family are free", "delegation between functors is followed by class "
+                 "name and operand kind (all overloads of the callee class for that kind)"],
     "R-MPFZERO": ["only literal zero stores are judged (sizes computed at run time are outside the rule)", "local aliases of the object parameter are "
                   "followed flow-insensitively; objects reached through other pointers are not"],
     "R-EXTENT.c13": ["aliasflow R-EXTENT over the whole mpz/mpq/mpf layer; findings kept only in the files C13 is anchored in"],
